@@ -41,8 +41,9 @@ def route_shapes(src, values):
             continue
         if ty in ("i32", "u32"):
             shapes.add("unsupplied-integer-default")
-        if not re.search(r"ov\d", init) and re.search(r"[-+*/(]", init):
-            shapes.add("unsupplied-literal-expression-default")
+        if values.strip() == "" and re.search(r"[-+*/(!~]", init):
+            # no value supplied at all: msl.Compile skips override resolution (len(PipelineConstants) == 0)
+            shapes.add("empty-map-nonliteral-default")
     return shapes
 
 
@@ -89,7 +90,8 @@ def run(ck):
             continue
         parts = t.split(" ")
         hslot = int(parts[1].split("=")[1]) if len(parts) > 1 and parts[1].startswith("hslot=") else -1
-        vmap = " ".join(parts[2:]) if len(parts) > 2 else ""
+        ovf = len(parts) > 2 and parts[2] == "ovf"       # an integer expression over the substituted overrides overflows 32 bits
+        vmap = " ".join(parts[(3 if ovf else 2):]) if len(parts) > 2 else ""
         ck.case(s + vmap, nontrivial=("= (" in s or vmap != ""))
         viols = []
         status = i.split("|")[-1].strip()
@@ -127,6 +129,8 @@ def run(ck):
                 mt = k.get("match", {})
                 if mt.get("needs_helper") and hslot < 0:
                     continue
+                if mt.get("needs_overflow") and not ovf:
+                    continue
                 if re.fullmatch(mt.get("kind", "$^").strip("^$") if mt.get("kind", "").startswith("^") else re.escape(mt.get("kind", "")), kind) \
                         and re.search(mt.get("knob_regex", ".*"), knob) and re.search(mt.get("class_regex", ".*"), cls):
                     fid = fid or k["id"]
@@ -135,7 +139,7 @@ def run(ck):
                 continue
             if fid is None:      # a listed finding never hides a later unlisted violation of the same class
                 reported.add(key)
-            ck.violation({"kind": kind, "finding": fid, "class": cls, "generator_class": knob, "values": vmap, "result": m[:1500],
+            ck.violation({"kind": kind, "finding": fid, "class": cls, "generator_class": knob, "int_overflow": ovf, "values": vmap, "result": m[:1500],
                           "status": i[:300], "wgsl": unq(s[1:-1]), "how": how}, found_input=True)
         if len(ck.samples) < 3 and head == "agree" and vmap:
             ck.samples.append({"values": vmap, "wgsl": unq(s[1:-1])[:500], "result": m[:200]})
@@ -158,6 +162,9 @@ def run(ck):
         for l, t, s, tx in zip(lines, rtags, rsrcs, rtexts):
             route = t.split(" ")[0]
             knob = t.split(" ")[1]
+            rparts = t.split(" ")
+            rovf = len(rparts) > 3 and rparts[3] == "ovf"
+            rvals = " ".join(rparts[(4 if rovf else 3):])
             ck.case(route + s + t, nontrivial=True)
             if l.startswith("(routeerr "):
                 r = "ERROR " + unq(l[len("(routeerr "):-1].strip('"'))
@@ -175,19 +182,22 @@ def run(ck):
             elif "-error[" in r:
                 cls = re.sub(r"[0-9]+", "N", r[r.index("-error[") + 7:])[:100]
             fid = None
-            shapes = route_shapes(unq(s[1:-1]), " ".join(t.split(" ")[3:]))
+            shapes = route_shapes(unq(s[1:-1]), rvals)
             for kf in ck.known:
                 mt = kf.get("match", {})
-                if mt.get("kind") == "pipeline-constant-route-differs" and mt.get("route") == route and re.search(mt.get("class_regex", ".*"), cls) \
-                        and mt.get("shape") in shapes:
-                    fid = fid or kf["id"]
+                for alt in [mt] + mt.get("alternatives", []):
+                    if alt.get("kind", mt.get("kind")) == "pipeline-constant-route-differs" and alt.get("route", mt.get("route")) == route \
+                            and re.search(alt.get("class_regex", ".*"), cls) \
+                            and (alt.get("shape", mt.get("shape")) in shapes or alt.get("any_shape")) \
+                            and (rovf or not alt.get("needs_overflow")):
+                        fid = fid or kf["id"]
             key = ("route", route, cls)
             if fid is None and key in reported:
                 continue
             if fid is None:
                 reported.add(key)
             ck.violation({"kind": "pipeline-constant-route-differs", "finding": fid, "route": route, "class": cls, "generator_class": knob,
-                          "values": " ".join(t.split(" ")[3:]), "result": r[:1500], "wgsl": unq(s[1:-1]), "emitted": unq(tx[1:-1])[:5000],
+                          "values": rvals, "int_overflow": rovf, "result": r[:1500], "wgsl": unq(s[1:-1]), "emitted": unq(tx[1:-1])[:5000],
                           "how": "the text written by the back end under its own PipelineConstants option, executed by the target-language "
                                  "interpreter, differs from the WGSL program with the overrides substituted"}, found_input=True)
         ck.extra["pipeline_constant_routes"] = rt
